@@ -117,12 +117,111 @@ where
     f
 }
 
+/// Construct the optimizer through one of the public routes.  The request always carries the hyper-parameters the
+/// optimizer is supposed to end up with (the model is the directly constructed optimizer with exactly those).
+fn mk_adam(route: &str, a: f64, b1: f64, b2: f64, e: f64) -> R<Adam> {
+    Ok(match route {
+        "new" => Adam::new(a, b1, b2, e),
+        "clone" => Adam::new(a, b1, b2, e).clone(),
+        "clone2" => {
+            let o = Adam::new(a, b1, b2, e);
+            let c = o.clone();
+            drop(o);
+            c.clone()
+        }
+        "used_clone" => {
+            // the original has been run (its tape holds nodes) before it is cloned
+            let o = Adam::new(a, b1, b2, e);
+            let f = objective(|p: &[Var], _d: &[&[f64]]| p[0] * p[0]);
+            let _ = o.optimize(f, &[1.0], &[], 2);
+            o.clone()
+        }
+        "set_stepsize" => {
+            let mut o = Adam::new(a * 3. + 1., b1, b2, e);
+            o.set_stepsize(a);
+            o
+        }
+        "clone_set" => {
+            let mut o = Adam::new(a * 3. + 1., b1, b2, e).clone();
+            o.set_stepsize(a);
+            o
+        }
+        // the following ignore b1, b2, e (and a): the request carries the documented defaults
+        "default" => Adam::default(),
+        "with_stepsize" => Adam::with_stepsize(a),
+        "default_set" => {
+            let mut o = Adam::default();
+            o.set_stepsize(a);
+            o
+        }
+        "with_stepsize_clone" => Adam::with_stepsize(a).clone(),
+        _ => return Err(BadOp),
+    })
+}
+
+fn mk_sgd(route: &str, a: f64, m: f64, nest: bool) -> R<SGD> {
+    Ok(match route {
+        "new" => SGD::new(a, m, nest),
+        "clone" => SGD::new(a, m, nest).clone(),
+        "used_clone" => {
+            let o = SGD::new(a, m, nest);
+            let f = objective(|p: &[Var], _d: &[&[f64]]| p[0] * p[0]);
+            let _ = o.optimize(f, &[1.0], &[], 2);
+            o.clone()
+        }
+        "set_stepsize" => {
+            let mut o = SGD::new(a * 3. + 1., m, nest);
+            o.set_stepsize(a);
+            o
+        }
+        "clone_set" => {
+            let mut o = SGD::new(a * 3. + 1., m, nest).clone();
+            o.set_stepsize(a);
+            o
+        }
+        "default" => SGD::default(),
+        "default_set" => {
+            let mut o = SGD::default();
+            o.set_stepsize(a);
+            o
+        }
+        "default_clone" => SGD::default().clone(),
+        _ => return Err(BadOp),
+    })
+}
+
+fn mk_lm(route: &str, e1: f64, e2: f64, tau: f64) -> R<LM> {
+    Ok(match route {
+        "new" => LM::new(e1, e2, tau),
+        "clone" => LM::new(e1, e2, tau).clone(),
+        "fields" => {
+            let mut o = LM::default();
+            o.eps1 = e1;
+            o.eps2 = e2;
+            o.tau = tau;
+            o
+        }
+        "fields_clone" => {
+            let mut o = LM::new(e1 + 1., e2 * 2., tau * 0.5);
+            o.eps1 = e1;
+            o.eps2 = e2;
+            o.tau = tau;
+            o.clone()
+        }
+        "default" => LM::default(),
+        "default_clone" => LM::default().clone(),
+        _ => return Err(BadOp),
+    })
+}
+
 fn ks(t: &mut Toks) -> R<Vec<usize>> {
     t.usizes()
 }
 
 fn step(_: &mut (), t: &mut Toks) -> R<String> {
-    match t.tok()? {
+    let op = t.tok()?;
+    let route = if op == "adamr" || op == "sgdr" || op == "lmr" { t.tok()? } else { "new" };
+    match op {
         "grad" => {
             let theta = t.vec()?;
             let xs = t.tok()?;
@@ -147,7 +246,7 @@ fn step(_: &mut (), t: &mut Toks) -> R<String> {
             out.extend(g);
             Ok(ok(show_fs(&out)))
         }
-        "adam" => {
+        "adam" | "adamr" => {
             let (a, b1, b2, e) = (t.f64()?, t.f64()?, t.f64()?, t.f64()?);
             let theta = t.vec()?;
             let ks = ks(t)?;
@@ -155,14 +254,14 @@ fn step(_: &mut (), t: &mut Toks) -> R<String> {
             t.end()?;
             let mut out = Vec::new();
             for k in ks {
-                let optim = Adam::new(a, b1, b2, e);
+                let optim = mk_adam(route, a, b1, b2, e)?;
                 let f = objective(|p, d| eval(&prog, p, d));
                 let r = optim.optimize(f, &theta, &[], k);
                 out.extend(r.iter().copied());
             }
             Ok(ok(show_fs(&out)))
         }
-        "sgd" => {
+        "sgd" | "sgdr" => {
             let (a, m, nest) = (t.f64()?, t.f64()?, t.usize()?);
             let theta = t.vec()?;
             let ks = ks(t)?;
@@ -170,14 +269,14 @@ fn step(_: &mut (), t: &mut Toks) -> R<String> {
             t.end()?;
             let mut out = Vec::new();
             for k in ks {
-                let optim = SGD::new(a, m, nest != 0);
+                let optim = mk_sgd(route, a, m, nest != 0)?;
                 let f = objective(|p, d| eval(&prog, p, d));
                 let r = optim.optimize(f, &theta, &[], k);
                 out.extend(r.iter().copied());
             }
             Ok(ok(show_fs(&out)))
         }
-        "lm" => {
+        "lm" | "lmr" => {
             let (e1, e2, tau) = (t.f64()?, t.f64()?, t.f64()?);
             let theta = t.vec()?;
             let n = t.usize()?;
@@ -188,7 +287,7 @@ fn step(_: &mut (), t: &mut Toks) -> R<String> {
             t.end()?;
             let mut out = Vec::new();
             for k in ks {
-                let optim = LM::new(e1, e2, tau);
+                let optim = mk_lm(route, e1, e2, tau)?;
                 let f = objective(|p, d| eval(&prog, p, d));
                 let (popt, pcov) = optim.optimize(f, &theta, &[&xs, &ys], k);
                 out.extend(popt.iter().copied());
